@@ -137,7 +137,7 @@ def fillN : List PSeg → Node → Except Err Node
   | [], leaf => .ok leaf
   | .key s :: rest, leaf => (fillN rest leaf).map (fun c => .map none [(.str s, c)])
   | .index i :: rest, leaf =>
-    if i < 0 then .error (.crash .indexError)
+    if i < 0 then .error (.ypath .generic)   -- "Cannot add an element before the start of a list" (fix 205ff02)
     else (fillN rest leaf).map (fun c => .seq none (List.replicate i.toNat (buildNextN rest leaf) ++ [c]))
 
 def createHereN (n : Node) (seg : PSeg) (rest : List PSeg) (leaf : Node) : Except Err Node :=
@@ -146,7 +146,7 @@ def createHereN (n : Node) (seg : PSeg) (rest : List PSeg) (leaf : Node) : Excep
     match intOfSeg seg with
     | none => .error (.ypath .typeMismatch)
     | some i =>
-      if i < 0 then .error (.crash .indexError)
+      if i < 0 then .error (.ypath .generic)   -- "Cannot add an element before the start of a list" (fix 205ff02)
       else match fillN rest leaf with
         | .error e => .error e
         | .ok c => .ok (.seq a (items ++ List.replicate (i.toNat - items.length) (buildNextN rest leaf) ++ [c]))
